@@ -6,8 +6,9 @@ request : sym <dmax> <entry>,<entry>,…      entry = <hexname>:<K>:<hexlink|->
           the image has two layers: layer 0 holds the entries, layer 1 the whiteouts and a file "keep"
 reply   : d<k>=<view0>/<view1> (k = 0..dmax)  s<k>=<view0>/<view1>  cls=<…>
           per name (comma separated)   d: <Stat>.<Open>.<ReadDir>     s: the specification's verdict
-          Stat f<hexbase> d<hexbase> n c p ; Open o(f<hex>|d<hex>|n) n c p ; ReadDir l<hex_hex…> n c p
-          verdict f<hexbase> d<hexbase> n (must be not-exist) b (any error) e (cycle or depth)
+          Stat f<hexbase> d<hexbase> n c p ; Open o(f<hex>|d<hex>|n) n c p (o… = a handle was returned, then
+          Stat on the handle) ; ReadDir l<hex_hex…> n c p
+          verdict f<hexbase> d<hexbase> n (must be not-exist) e (cycle or depth)
           or `loaderr` when a link name is empty (the loader fails)
 The model graph stores link targets as `handleSymlink` does; the specification graph uses the target
 the link denotes (`denotes`). By `C17_stored_target` they coincide; `cls` carries a `u` if they ever differ.
@@ -102,7 +103,7 @@ def dirTok : DirRes → String
 
 def verdictTok (g : Graph Key) : Verdict Key → String
   | .mustOk n => (match g n with | some (.term .dir) => "d" | _ => "f") ++ baseHex n
-  | .mustNotExist => "n" | .boundary => "b" | .cycleOrDepth => "e"
+  | .mustNotExist => "n" | .cycleOrDepth => "e"
 
 def viewToks (tbl : List (Key × Node Key)) (d : Nat) (es : List Ent) : String :=
   let g := graphOf tbl
